@@ -78,27 +78,53 @@ def check_thread_run(P, ctx):
         kinds = {ir.top_nocast(c[2][0])[1] for n, c in news}
         ok = ok and {'GC', 'Exception'} <= kinds and all(g.must_pass(user[0]['id'], [n['id']]) for n, c in news)
     ctx.check(ok, rule, 'Thread_Init_Run', site(fn), 'a new thread first binds the thread-specific key to its own wrapper, then creates its own collector and exception record (which attach to current(Thread)), and only then runs the user function')
-    # Thread_Current returns the wrapper bound to this thread
+    # Thread_Current returns the wrapper bound to this thread — evaluated (cint) for: key created or not yet, a wrapper bound to the
+    # calling thread or none, the main wrapper existing or not yet
+    from . import cint
     fn = P.fn(P.slot('Thread', 'Current', 'current'))
-    g = P.cfg(fn)
     ctx.fn(fn)
-    N = util.Norm(P, fn, expand_locals=False)
-    gets = [n for n in g.live() if n.get('decl') and n['decl']['init'] is not None and any(ir.callee_name(c) == 'pthread_getspecific' for c in ir.calls(n['decl']['init']))]
-    ok = len(gets) == 1
-    if ok:
-        w = ('local', gets[0]['decl']['name'])
-        c = [c for c in ir.calls(gets[0]['decl']['init']) if ir.callee_name(c) == 'pthread_getspecific'][0]
-        ok = N.canon(c[2][0]) == ('global', 'Thread_Key_Wrapper')
-        rets = [n for n in g.live() if n['kind'] == 'ret']
-        nullc = [n for n in g.live() if n['kind'] == 'cond' and N.canon(n['expr']) == ir.canon(('bin', '==', w, ('int', 0)))]
-        ok = ok and len(nullc) == 1
-        for r in rets:
-            e = N.canon(r['expr'])
-            if e == w:
-                ok = ok and g.must_pass(r['id'], through_edges=[(nullc[0]['id'], False)])
-            else:
-                ok = ok and e == ('global', 'Thread_Main') and g.must_pass(r['id'], through_edges=[(nullc[0]['id'], True)])
-    ctx.check(ok, rule, 'Thread_Current', site(fn), 'current(Thread) is the wrapper stored under this thread\'s key; only a thread without one (the main thread) gets the main wrapper')
+    KEY, WRAP, MAIN, NEWT = 5500, 6200, 6100, 6300
+    bad, unsup, ncase = None, None, 0
+    for created in (0, 1):
+        for wrapper in (0, WRAP):
+            for main in (0, MAIN):
+                atoms = {('global', 'NULL'): 0, ('global', 'Thread_TLS_Key_Created'): created, ('global', 'Thread_Key_Wrapper'): KEY,
+                         ('global', 'Thread_Main'): main, ('global', 'Exception_Main'): 0}
+                ev_ = []
+
+                def call(nm, e, it, wrapper=wrapper, ev_=ev_):
+                    if nm == 'pthread_getspecific':
+                        if it.ev(e[2][0]) != KEY:
+                            raise cint.NoEval('pthread_getspecific on another key')
+                        ev_.append('get')
+                        return wrapper
+                    if nm in ('pthread_key_create', 'atexit', 'pthread_setspecific', 'Thread_TLS_Key_Create'):
+                        return 0
+                    if nm == 'pthread_self':
+                        return 77
+                    if nm == 'new_raw_with':
+                        t_ = ir.top_nocast(e[2][0])
+                        return NEWT if t_ == ('global', 'Thread') else NEWT + 1
+                    raise cint.NoEval('call %s' % nm)
+                it = cint.CInt(P, fn, atoms=atoms, call=call, recurse=True, memw=lambda a, v, w, it_: None, mem=lambda a, it_: 0, strict=True)
+                it.atoms = atoms
+                r = it.run([])
+                ncase += 1
+                lab = 'key %s, %s, main wrapper %s' % ('created' if created else 'not created yet', 'a wrapper bound to this thread' if wrapper else 'no wrapper bound', 'exists' if main else 'does not exist yet')
+                if r[0] != 'ret':
+                    unsup = unsup or '%s: %s' % (lab, r[1])
+                    continue
+                want = wrapper if wrapper else (main or NEWT)
+                if r[1] != want:
+                    bad = bad or '%s: returns %s' % (lab, {WRAP: 'the bound wrapper', MAIN: 'the main wrapper', NEWT: 'a new main wrapper', 0: 'NULL'}.get(r[1], r[1]))
+                elif wrapper and atoms[('global', 'Thread_Main')] != main:
+                    bad = bad or '%s: the main wrapper is replaced' % lab
+    ctx.stats['paths'] += ncase
+    if unsup and not bad:
+        ctx.undecided(rule, 'Thread_Current', site(fn), 'leaves the evaluated fragment: ' + unsup)
+    else:
+        ctx.check(bad is None, rule, 'Thread_Current', site(fn), 'current(Thread) is the wrapper stored under this thread\'s key; only a thread without one (the main thread) gets the main wrapper '
+                  '(%d cases evaluated)' % ncase, [bad] if bad else None)
     # collector and exception record are looked up in the calling thread's own table
     from .rules_c06 import validate_current
     for T in ('GC', 'Exception'):
